@@ -5,6 +5,7 @@ package scen
 import (
 	"encoding/hex"
 	"fmt"
+	"sort"
 	"strings"
 
 	"github.com/vapourismo/knx-go/knx"
@@ -339,4 +340,217 @@ func groupSendersOracle(tr *mc.Trace) []h.Violation {
 func init() {
 	register("both", &h.Scenario{Name: "C05-group-tunnel-2senders-every-first-transmission-lost", Prop: "C05", P: 2, F: 0, D: 2, Run: groupSendersRun(2), Check: groupSendersOracle})
 	register("both", &h.Scenario{Name: "C05-group-tunnel-3senders-every-first-transmission-lost", Prop: "C05", P: 1, F: 0, D: 1, Run: groupSendersRun(3), Check: groupSendersOracle})
+}
+
+// ---- C05, gateway -> application, through the real UDP receiver ----
+
+// inboundWireRun: the gateway sends three telegrams stop-and-wait (the next one only after the
+// acknowledgement of the one before), in one of three shapes (L_Data with additional
+// information, bus-monitor indication on a bus-monitor tunnel, raw frame on a raw tunnel); the
+// application picks them up afterwards, or one behind. "Every telegram for which the gateway
+// obtained an acknowledgement has been accepted for delivery to the application exactly once and in
+// the gateway's order": what the application gets is compared octet for octet with what was sent.
+func inboundWireRun() func() {
+	return func() {
+		defer logChoice()()
+		shape := mc.Choose(3, mc.Free)
+		mk := func(i int) cemi.Message {
+			switch shape {
+			case 1:
+				m := cemi.LBusmonInd{0x03, 0x01, byte(i), 0xBC, 0x11, byte(i), 0x0A, byte(0x30 + i), 0xE1, 0x00, 0x81}
+				return &m
+			case 2:
+				return &cemi.LRawInd{LRaw: cemi.LRaw{0xBC, 0x11, byte(i), 0x0A, byte(0x40 + i), 0xE1, 0x00, 0x81}}
+			}
+			return MsgTagged(i)
+		}
+		layer := []knxnet.TunnelLayer{knxnet.TunnelLayerData, knxnet.TunnelLayerBusmon, knxnet.TunnelLayerRaw}[shape]
+		w := vnet.Reset()
+		var ep *vnet.Endpoint
+		acked := mc.NewChan[int](8, "inboundwire.acked")
+		w.OnCreate = func(e *vnet.Endpoint) {
+			ep = e
+			e.OnWrite = func(wr vnet.WriteRec) {
+				var v knxnet.Service
+				if _, err := knxnet.Unpack(wr.Data, &v); err != nil {
+					return
+				}
+				switch x := v.(type) {
+				case *knxnet.ConnReq:
+					e.Inject(pack(&knxnet.ConnRes{Channel: 7, Status: 0, Control: knxnet.HostInfo{Protocol: knxnet.UDP4}}), nil)
+				case *knxnet.TunnelRes:
+					if x.Channel == 7 && x.Status == 0 {
+						mc.Log(GwAcked{int(x.SeqNumber)})
+						acked.Send(int(x.SeqNumber))
+					}
+				}
+			}
+		}
+		t, err := knx.NewTunnel("192.0.2.99:3671", layer, TCfg(100, 350, 100000000))
+		if err != nil {
+			mc.Log(Note("connect failed: " + err.Error()))
+			return
+		}
+		const n = 3
+		lag := mc.Choose(2, mc.Free) // 0: the application reads after all three were acknowledged; 1: it reads each one when the next has been acknowledged
+		var have []cemi.Message
+		read := func() {
+			c0 := mc.RecvC(t.Inbound())
+			c1 := mc.RecvC(mc.After(100 * ms))
+			if mc.Select(false, c0, c1) == 0 && c0.Ok {
+				have = append(have, c0.V)
+			}
+		}
+		for i := 0; i < n; i++ {
+			mc.Log(WireSent{i, deepDump(mk(i))})
+			ep.Inject(pack(&knxnet.TunnelReq{Channel: 7, SeqNumber: uint8(i), Payload: mk(i)}), nil)
+			acked.Recv()
+			if lag == 1 && i > 0 {
+				read()
+			}
+		}
+		for len(have) < n {
+			k := len(have)
+			read()
+			if len(have) == k {
+				break
+			}
+		}
+		for i, m := range have {
+			mc.Log(WireGot{i, deepDump(m)})
+		}
+		t.Close()
+		mc.Sleep(1 * ms)
+	}
+}
+
+// WireSent / WireGot: the i-th telegram the gateway sent / the application holds at the end.
+type WireSent struct {
+	I    int
+	Dump string
+}
+type WireGot struct {
+	I    int
+	Dump string
+}
+
+func (w WireSent) String() string { return fmt.Sprintf("GW-SENT #%d %s", w.I, w.Dump) }
+func (w WireGot) String() string  { return fmt.Sprintf("APP-HOLDS #%d %s", w.I, w.Dump) }
+
+func inboundWireOracle(tr *mc.Trace) []h.Violation {
+	vs := generic(tr, "C05", true)
+	bad := func(class, format string, a ...interface{}) {
+		vs = append(vs, h.Violation{Class: "C05:" + class, Msg: fmt.Sprintf(format, a...)})
+	}
+	var sent, got []string
+	acks := 0
+	for _, e := range tr.Log {
+		switch x := e.V.(type) {
+		case Note:
+			bad("setup", "%s", string(x))
+		case WireSent:
+			sent = append(sent, x.Dump)
+		case WireGot:
+			got = append(got, x.Dump)
+		case GwAcked:
+			acks++
+		}
+	}
+	if tr.Reason != "main-returned" {
+		return vs
+	}
+	if acks != len(sent) {
+		bad("inbound-wire:acknowledgements", "the gateway sent %d telegrams stop-and-wait and obtained %d acknowledgements", len(sent), acks)
+	}
+	// (the order in which waiting telegrams are handed over is C17's subject and known finding; here:
+	// each acknowledged telegram exactly once, octet for octet)
+	s2, g2 := append([]string{}, sent...), append([]string{}, got...)
+	sort.Strings(s2)
+	sort.Strings(g2)
+	if fmt.Sprint(g2) != fmt.Sprint(s2) {
+		bad("inbound-wire:acknowledged-telegrams-differ-from-what-the-application-holds", "acknowledged, in the gateway's order: %v; the application holds: %v", sent, got)
+	}
+	return vs
+}
+
+func init() {
+	register("both", &h.Scenario{Name: "C05-fullstack-inbound-stop-and-wait-three-shapes", Prop: "C05", P: 1, F: 0, D: 1, Run: inboundWireRun(), Check: inboundWireOracle})
+}
+
+// ---- C12: group events after a rejected one ----
+
+// groupRejectRun: four group writes in a row through a group tunnel; the gateway (rule-following:
+// it numbers every request it has answered, accepted or not - C03's "consecutive" clause) rejects
+// one of them with an error status. The events after the rejected one must still go out as one
+// L_Data request each and reach the bus, each once, with their own payload.
+func groupRejectRun() func() {
+	return func() {
+		sock := fakesock.New("udp")
+		expected := uint8(0)
+		rejectAt := 1 + mc.Choose(2, mc.Free)
+		status := []uint8{0x27, 0x29, 0x30}[mc.Choose(3, mc.Free)]
+		n := 0
+		sock.OnSend = func(s *fakesock.Sent) {
+			switch x := s.Svc.(type) {
+			case *knxnet.ConnReq:
+				sock.Deliver(&knxnet.ConnRes{Channel: 7, Status: 0, Control: knxnet.HostInfo{Protocol: knxnet.UDP4}})
+			case *knxnet.TunnelReq:
+				switch x.SeqNumber {
+				case expected:
+					expected++
+					if n == rejectAt {
+						n++
+						sock.Deliver(&knxnet.TunnelRes{Channel: 7, SeqNumber: x.SeqNumber, Status: knxnet.ErrCode(status)})
+						return
+					}
+					n++
+					if ld, ok := x.Payload.(*cemi.LDataReq); ok {
+						if app, ok := ld.Data.(*cemi.AppData); ok {
+							mc.Log(BusEvent{x.SeqNumber, ld.Destination, hex.EncodeToString(app.Data)})
+						}
+					}
+					sock.Deliver(&knxnet.TunnelRes{Channel: 7, SeqNumber: x.SeqNumber, Status: 0})
+				case expected - 1:
+					sock.Deliver(&knxnet.TunnelRes{Channel: 7, SeqNumber: x.SeqNumber, Status: 0})
+				}
+			}
+		}
+		gt, err := knx.NewGroupTunnelOnSocket(sock, TCfg(100, 350, 100000000))
+		if err != nil {
+			mc.Log(Note("connect failed: " + err.Error()))
+			return
+		}
+		mc.GoEnv("reader", func() {
+			for {
+				if _, ok := gt.Inbound().Recv2(); !ok {
+					return
+				}
+			}
+		})
+		for i := 0; i < 4; i++ {
+			data := []byte{byte(i + 1), byte(0x50 + i)}
+			dst := uint16(0x0B00 + i)
+			err := gt.Send(knx.GroupEvent{Command: knx.GroupWrite, Destination: cemi.GroupAddr(dst), Data: data})
+			e := errStr(err)
+			if i == rejectAt && e != "" {
+				e = "" // the rejected event: Send reports the rejection, nothing to judge here
+				continue
+			}
+			mc.Log(GroupSent{dst, hex.EncodeToString(data), e})
+		}
+		mc.Sleep(10 * ms)
+		gt.Close()
+	}
+}
+
+func groupRejectOracle(tr *mc.Trace) []h.Violation {
+	vs := groupSendersOracle(tr)
+	for i := range vs {
+		vs[i].Class = strings.Replace(vs[i].Class, "C05:", "C12:after-a-rejected-event:", 1)
+	}
+	return vs
+}
+
+func init() {
+	register("both", &h.Scenario{Name: "C12-group-writes-after-a-rejected-one", Prop: "C12", P: 0, F: 0, D: -1, Run: groupRejectRun(), Check: groupRejectOracle})
 }
